@@ -195,7 +195,7 @@ let extlen_line kind crit hex =
 (* wave 2: signature algorithm identifiers; outer ids as in the harness *)
 let outer_alg_content = function
   | 0 -> "06082a811ccf55018375" | 1 -> "06082a811ccf550183750500" | 2 -> "06082a8648ce3d040302" | 3 -> "06092a864886f70d01010b0500"
-  | 4 -> "06082a811ccf550183780500" | 5 -> "06032a0304" | 6 -> "06082a8648ce3d0403020500" | _ -> "06082a811ccf55018375020105"
+  | 4 -> "06082a811ccf550183780500" | 8 -> "060b2a811ccf55019080808375" | 5 -> "06032a0304" | 6 -> "06082a8648ce3d0403020500" | _ -> "06082a811ccf55018375020105"
 let oid_class = function 0 | 1 -> 0 | 2 | 6 -> 2 | 3 -> 3 | 4 -> 4 | _ -> -1     (* table entry, -1 = does not parse *)
 let sigalg_line kind inner outer mode =
   let i = int_of_string inner and o = int_of_string outer in
@@ -208,6 +208,27 @@ let sigalg_line kind inner outer mode =
   | "req" -> Printf.sprintf "parse=%s verify=%d" (if parses then "1" else "ERR") (b ver)
   | _ -> Printf.sprintf "parse=%s verify=%d check=%d" (if parses then "1" else "ERR") (b ver) (b agree)
 
+
+(* wave 4: extension lists in builder order; the expected concatenation of the solo encodings comes with the op *)
+let extlist_line expect =
+  let rec go inp n acc =
+    if inp = [] then Some (n, List.rev acc) else
+    match ext_from_der inp with
+    | Some ([Some (_, _); b; Some (_, v)], rest) ->
+      let crit = (match b with None -> -1 | Some (_, [x]) -> if int_of_n x = 0 then 0 else 1 | _ -> 1) in
+      go rest (n + 1) (Printf.sprintf "%d:%d" crit (List.length v) :: acc)
+    | _ -> None in
+  match go (bx expect) 0 [] with
+  | Some (n, each) -> Printf.sprintf "list=%s n=%d each=%s obj=1" expect n (String.concat ";" each)
+  | None -> "MODEL-expected-list-does-not-parse"
+let entryexts_line reason date issuer =
+  let r = int_of_string reason and iss = bx issuer in
+  if r < 0 && date = "-1" && iss = [] then "ERR build" else
+  let e1 = if r < 0 then [] else ext_emit (tlv (ni 6) (bx "551d15")) (zi (-1)) [ni 10; ni 1; ni r] in
+  let e2 = if date = "-1" then [] else ext_emit (tlv (ni 6) (bx "551d18")) (zi (-1)) (let (t, c) = gen_time_value (n_of_i64 date) in tlv t c) in
+  let e3 = if iss = [] then [] else ext_emit (tlv (ni 6) (bx "551d1d")) (zi 1) (tlv (ni 48) iss) in
+  Printf.sprintf "der=%s reason=%d date=%s issuer=%s" (hx (tlv (ni 48) (e1 @ e2 @ e3))) r date (hx iss)
+
 let handle ws = match ws with
   | ["keys"] -> String.concat " " (Array.to_list (Array.map hx keys))
   | "cert" :: r -> cert_line r
@@ -215,6 +236,14 @@ let handle ws = match ws with
   | ["extlen"; kind; crit; hex] -> extlen_line kind crit hex
   | ["sigalg"; kind; inner; outer; mode] -> sigalg_line kind inner outer mode
   | ["threads"; _; _] -> "mismatches=0"
+  | ["reusebuf"; order] ->
+    "len-equal=1" ^ String.concat "" (List.map (fun ch ->
+      let d = if ch = '2' then 2 else 1 in
+      let b l = if l = d then 1 else 0 in
+      Printf.sprintf " %d:subject=%d,leaf1=%d/%d,crl1=%d,leaf2=%d/%d,crl2=%d" d d (b 1) (b 1) (b 1) (b 2) (b 2) (b 2))
+      (List.init (String.length order) (String.get order)))
+  | ["extlist"; _; _; expect] -> extlist_line expect
+  | ["entryexts"; reason; date; issuer] -> entryexts_line reason date issuer
   | ["crlcheck"; serial; entries; issuer; sk; whenv; flip; dp; fetch] ->
     let es = parse_entries entries in
     if List.exists (fun (sn, d, _) -> sn = [] || not (time_ok d)) es || bx serial = [] then "ERR args" else
